@@ -345,6 +345,10 @@ def generate(rng, tier):
                 g = rng.choice(pool)
                 m, n = g["in"]
                 fq = _fft_Q(rng, m, n)
+            if rng.random() < 0.3:
+                # a padding factor for which shape*Q is not an integer: the routine pads to ceil(shape*Q), and the
+                # textbook sum on THAT grid (Q_eff = padded/shape per axis, unitary) is what must come back
+                fq = rng.choice([1.1, 1.25, 1.3, 1.5, 1.7, 2.2, 2.5, round(rng.uniform(1, 3), 3)])
             name = arr_for([m, n])
             op = {"op": kind, "arr": name, "Q": fq, "wf": rng.random() < 0.4,
                   "efl": rng.uniform(10, 500), "wvl": arrays[name]["wvl"],
